@@ -58,6 +58,16 @@ package verifyield
 // Hook is set once, before any task starts.
 var Hook func(site int32)
 
+// NoYieldHook brackets regions in which the running task must not be preempted.
+var NoYieldHook func(d int32)
+
+// NoYield marks entry (+1) / exit (-1) of a sync.Once body.
+func NoYield(d int32) {
+	if h := NoYieldHook; h != nil {
+		h(d)
+	}
+}
+
 // Y is a yield point.
 func Y(site int32) {
 	if h := Hook; h != nil {
@@ -71,6 +81,9 @@ func Y(site int32) {
 		must(instrumentDir(filepath.Join(*out, "patgo", pkg), "patgo/"+pkg))
 	}
 	stmtLvl = false
+	// function-entry yields inside the ed25519 fork's curve package: its package-level tables are
+	// built on first use (a preemption must be able to land inside that)
+	must(instrumentDir(filepath.Join(*out, "patgo", "ed25519/internal/edwards25519"), "patgo/ed25519/internal/edwards25519"))
 	for _, pkg := range []string{"oprf", "zk/dleq", "group", "blindsign/blindrsa", "blindsign/blindrsa/internal/common", "blindsign/blindrsa/internal/keys", "expander"} {
 		dir := filepath.Join(*out, "circl", pkg)
 		if _, err := os.Stat(dir); err == nil {
@@ -174,6 +187,24 @@ func instrumentFile(path, label string) error {
 		}
 	}
 	n := 0
+	// sync.Once bodies: x.Do(func() {...}) gets a no-preemption bracket
+	ast.Inspect(f, func(nd ast.Node) bool {
+		ce, ok := nd.(*ast.CallExpr)
+		if !ok || len(ce.Args) != 1 {
+			return true
+		}
+		sel, ok := ce.Fun.(*ast.SelectorExpr)
+		fl, ok2 := ce.Args[0].(*ast.FuncLit)
+		if !ok || !ok2 || sel.Sel.Name != "Do" || fl.Body == nil {
+			return true
+		}
+		call := func(v string) *ast.CallExpr {
+			return &ast.CallExpr{Fun: &ast.SelectorExpr{X: ast.NewIdent("verifyield"), Sel: ast.NewIdent("NoYield")}, Args: []ast.Expr{&ast.BasicLit{Kind: token.INT, Value: v}}}
+		}
+		fl.Body.List = append([]ast.Stmt{&ast.ExprStmt{X: call("1")}, &ast.DeferStmt{Call: call("-1")}}, fl.Body.List...)
+		n++
+		return true
+	})
 	for _, d := range f.Decls {
 		fd, ok := d.(*ast.FuncDecl)
 		if !ok || fd.Body == nil || hasDirective(fd) {
